@@ -431,6 +431,11 @@ class C05(spec.Spec):
         out.evaluations += 1
         native = eval(native_src, {"datetime": datetime, "Identifier": Identifier})
         dtq = QualifiedName(Namespace(dtprefix, XSD.uri), dt_local)
+        # call history: typed literals whose values compare equal to other kinds' values were parsed before
+        dd = ProvDocument()
+        dd.entity(EX["decoy"], [(EX["k"], Literal("true", XSD["boolean"])), (EX["k"], Literal("0", XSD["int"])),
+                                (EX["k"], Literal("2.0", XSD["double"])), (EX["k"], Literal("-5.0", XSD["double"])),
+                                (EX["k"], Literal("7", XSD["string"])), (EX["k"], Literal("1000", XSD["int"]))])
 
         def build(value):
             d = ProvDocument()
